@@ -509,10 +509,27 @@ impl<R: Read> BufRead for StreamBufferedReader<R> {
 
 impl<R: Read + Seek> Seek for StreamBufferedReader<R> {
     fn seek(&mut self, pos: SeekFrom) -> io::Result<u64> {
-        // For seek operations, we need to invalidate the buffer
+        // A relative seek is relative to the logical position, which lags the
+        // underlying stream by the bytes still sitting unread in the buffer.
+        let pos = match pos {
+            SeekFrom::Current(offset) => {
+                let buffered = (self.end - self.pos) as i64;
+                match offset.checked_sub(buffered) {
+                    Some(adjusted) => SeekFrom::Current(adjusted),
+                    None => {
+                        // Cannot be expressed in one step: undo the read-ahead first
+                        self.inner.seek(SeekFrom::Current(-buffered))?;
+                        SeekFrom::Current(offset)
+                    }
+                }
+            }
+            other => other,
+        };
+        // A successful seek invalidates the buffer; a refused one leaves the stream as it was
+        let new_pos = self.inner.seek(pos)?;
         self.pos = 0;
         self.end = 0;
-        self.inner.seek(pos)
+        Ok(new_pos)
     }
 }
 
